@@ -16,6 +16,8 @@ BASELINE = ("cd /repo && cargo nextest run --workspace --no-fail-fast --tool-con
 
 def main():
     props = [json.loads(l) for l in open(os.path.join(ROOT, "properties.jsonl"))]
+    # only properties the coordinator has reviewed and run are claimed
+    claimed = set(open(os.path.join(ROOT, "tools", "claimed.txt")).read().split())
     checks, na = [], []
     engines = {}
     for p in props:
@@ -23,6 +25,8 @@ def main():
         try:
             m = importlib.import_module("vx.props." + pid)
         except ImportError:
+            m = None
+        if pid not in claimed:
             m = None
         if m is None or not getattr(m, "CLAIMED", True):
             na.append({"property_id": pid,
